@@ -22,8 +22,20 @@ def _has_strings(fs):
     return False
 
 
+def scaled_timeout(timeout_ms):
+    """z3 / cvc5 time limits are wall-clock: under machine load (other checks, process pools) a query that needs 2 s of CPU can
+    overrun a 10 s limit and flip PROVED to UNKNOWN. The limit is therefore scaled by the load per core (1-minute load average
+    over the 16 cores), between 1x and 8x. It never changes a decided verdict, only how long `unknown` is waited for."""
+    try:
+        per_core = os.getloadavg()[0] / (os.cpu_count() or 1)
+    except OSError:
+        per_core = 0.0
+    return int(timeout_ms * min(8.0, max(1.0, 1.5 * per_core)))
+
+
 def discharge(ob, timeout_ms=10000, use_cvc5=True):
     """-> (status, backend, secs, model_or_None)"""
+    timeout_ms = scaled_timeout(timeout_ms)
     t = time.time()
     g = ob.goal
     if z3.is_true(g):
